@@ -13,7 +13,7 @@
    the witnesses outside tyid_wf.                                          *)
 From Coq Require Import ZArith List String Permutation.
 From V Require Import Base.UString Model.Filters Spec.FilterSpec
-  Proofs.FiltersBasics Proofs.FiltersOpt Proofs.FiltersFs Proofs.FiltersLaws.
+  Proofs.FiltersBasics Proofs.FiltersOpt Proofs.FiltersFs Proofs.FiltersLaws Proofs.FiltersInv.
 Import ListNotations.
 
 (* ---- the optimiser never changes the result (DESIGN Appendix A.2) ---- *)
@@ -53,6 +53,26 @@ Theorem pruning_sound : forall om fl, tyid_wf om fl ->
     forall mode d n o, placed mode d n o -> holds_b mode fl o = true -> auth_pass at_ d /\ auth_pass ai n.
 Proof. exact find_opts_spec. Qed.
 Print Assumptions pruning_sound.
+
+(* the layout invariant holds after every history of FileSystemSink.add, for objects
+   whose id starts with their own type (Inv (i) established by the sink, (ii) a hypothesis
+   on the objects: obj_wf) *)
+Theorem add_preserves_Inv : forall mode t o t',
+  Inv mode t -> obj_wf mode o -> fs_add t o = Ok t' -> Inv mode t'.
+Proof. exact fs_add_preserves_Inv_lemma. Qed.
+Print Assumptions add_preserves_Inv.
+
+Theorem built_tree_satisfies_Inv : forall mode objs t,
+  Inv mode t -> Forall (obj_wf mode) objs -> Inv mode (fs_build t objs).
+Proof. exact fs_build_Inv_lemma. Qed.
+Print Assumptions built_tree_satisfies_Inv.
+
+Theorem opt_sound_complete_after_any_history : forall mode om objs fl r,
+  Forall (obj_wf mode) objs -> tyid_wf om fl ->
+  naive mode fl (fs_build [] objs) = Ok r ->
+  exists r', fs_search mode om (fs_build [] objs) fl = Ok r' /\ Permutation r r'.
+Proof. exact built_tree_opt_sound. Qed.
+Print Assumptions opt_sound_complete_after_any_history.
 
 (* the code as it is, outside tyid_wf: a string given to `in`, a number given to `=` *)
 Theorem opt_in_string_refuted : forall mode,
@@ -158,6 +178,20 @@ Theorem composite_passes_filters_down : forall mode om members catt q outer r o,
     source_query mode om s q (fset_add (fset_add [] catt) outer) = Ok r0 /\ In o r0.
 Proof. exact composite_answers_from_members. Qed.
 Print Assumptions composite_passes_filters_down.
+
+(* get / all_versions answers: the attached (and composite-passed) filters hold for them too *)
+Theorem mem_all_versions_answers : forall mode data i att comp r o,
+  mem_all_versions mode data i att comp = Ok r -> In o r ->
+  In o (mem_versions data i) /\ forall f, In f (comp ++ att) -> check_filter mode f o = Ok true.
+Proof. exact mem_all_versions_answers_lemma. Qed.
+Print Assumptions mem_all_versions_answers.
+
+Theorem fs_all_versions_answers : forall mode om t i att comp r o f,
+  no_fuzzy_dups ([mkf t_id OEq i] ++ att ++ comp) ->
+  fs_all_versions mode om t i att comp = Ok r -> In o r ->
+  In f ([mkf t_id OEq i] ++ att ++ comp) -> check_filter mode f o = Ok true.
+Proof. exact fs_all_versions_answers_lemma. Qed.
+Print Assumptions fs_all_versions_answers.
 
 (* ---- operator semantics ---- *)
 
